@@ -21,10 +21,12 @@ import (
 	"math/rand"
 	"os"
 	"path/filepath"
+	"runtime"
 	"sort"
 	"strconv"
 	"strings"
 	"sync"
+	"sync/atomic"
 	"testing"
 	"time"
 
@@ -93,7 +95,7 @@ type vRow struct {
 	Count  uint64           `json:"count"`
 	Flen   int64            `json:"flen"` // os.Stat size of the cache file
 	Acct   vAcct            `json:"acct"`
-	Dict   map[string]vDict `json:"dict,omitempty"` // Open row: the concretisation of the abstract lists
+	Dict   map[string]vDict `json:"dict"` // Open row: the concretisation of the abstract lists
 	Rids   []uint64         `json:"rids,omitempty"` // Open row: real stream ids
 	Desc   map[string]string `json:"desc,omitempty"`
 }
@@ -310,13 +312,84 @@ type vRun struct {
 	tailID int // abstract id of the stream whose record is the last one in the file, -1 if unknown
 	probes string
 	stat   *vStats
+	fullDone bool
 }
 
 type vStats struct {
 	sync.Mutex
-	Traces, Rows, Probes, OpenFailures, OpErrors, Skipped int
-	Ops                                                    map[string]int
-	Shapes                                                 map[string]int
+	Traces, Rows, Probes, ProbesPartial, Truncs, OpenFailures, OpErrors, Skipped int
+	CompactStore, CompactLoad, BigRows                                          int
+	Ops                                                                         map[string]int
+	Shapes                                                                      map[string]int
+	RecLens                                                                     map[int64]bool
+	Trans                                                                       map[string]bool
+	ChunkRows                                                                   []int
+}
+
+// counters over the rows of one finished trace (measured coverage, no verdicts)
+func (st *vStats) account(rows []vRow) {
+	st.Lock()
+	defer st.Unlock()
+	st.Traces++
+	st.Rows += len(rows)
+	names := func(r *vRow, fp2name map[string]string) string {
+		res := ""
+		for _, o := range r.Obs {
+			if !o.C {
+				res += "-"
+			} else if n, ok := fp2name[o.Fp]; ok {
+				res += n
+			} else {
+				res += "?"
+			}
+		}
+		return res
+	}
+	fp2name := map[string]string{}
+	var prev *vRow
+	for i := range rows {
+		r := &rows[i]
+		st.Ops[r.Ev]++
+		if r.N == 0 {
+			for k, v := range r.Dict {
+				fp2name[v.Fp] = k
+			}
+		}
+		if r.Err != "" {
+			if r.Ev == "Reopen" || r.Ev == "Truncate" || r.Ev == "Probe" || r.Ev == "Open" {
+				st.OpenFailures++
+			} else if r.Ev == "Store" || r.Ev == "Reset" {
+				st.OpErrors++
+			}
+		}
+		if r.Ev == "Probe" {
+			st.Probes++
+			if r.Cut > 0 {
+				st.ProbesPartial++
+			}
+			st.RecLens[r.RecLen] = true
+			continue
+		}
+		if r.Ev == "Truncate" {
+			st.Truncs++
+		}
+		if len(r.Obs) == 0 {
+			continue
+		}
+		if r.Flen > 9*1024*1024 {
+			st.BigRows++
+		}
+		if prev != nil {
+			if r.Ev == "Store" && r.Err == "" && r.Acct.FileSize < prev.Acct.FileSize+r.Acct.Info[r.ID][1]+streamHeaderSize {
+				st.CompactStore++
+			}
+			if r.Ev == "Reopen" && r.Acct.FileSize < prev.Acct.FileSize {
+				st.CompactLoad++
+			}
+			st.Trans[fmt.Sprintf("%s/%d/%s/%v/%s/%s", r.Ev, r.ID, r.List, r.IDs, names(prev, fp2name), names(r, fp2name))] = true
+		}
+		prev = r
+	}
 }
 
 func (r *vRun) observe(cf *cacheFile, path string, row *vRow) {
@@ -364,7 +437,8 @@ func (r *vRun) observe(cf *cacheFile, path string, row *vRow) {
 }
 
 func (r *vRun) newRow(ev string) *vRow {
-	r.rows = append(r.rows, vRow{Tr: r.b.Tr, N: r.n, Ev: ev, Kind: r.b.Kind, List: "-", IDs: []int{}, Inval: []int{}, Obs: []vObs{}, Acct: vAcct{Info: [][2]int64{}}})
+	r.rows = append(r.rows, vRow{Tr: r.b.Tr, N: r.n, Ev: ev, Kind: r.b.Kind, List: "-", IDs: []int{}, Inval: []int{}, Obs: []vObs{},
+		Acct: vAcct{Info: [][2]int64{}}, Dict: map[string]vDict{}})
 	r.n++
 	return &r.rows[len(r.rows)-1]
 }
@@ -378,6 +452,16 @@ func (r *vRun) absID(real uint64) int {
 	return 1000 + int(real%1000000)
 }
 
+// NewCacheFile does not close the file when it returns an error; thousands of failing opens (code as
+// found + partly written records) would exhaust the descriptors.  The os.File finalizer closes them.
+var vFailedOpens int64
+
+func vOpenFailed() {
+	if atomic.AddInt64(&vFailedOpens, 1)%256 == 0 {
+		runtime.GC()
+	}
+}
+
 // cut points inside the last record (0 <= n < reclen) that are probed on copies of the file
 func (r *vRun) cuts(recLen int64) []int64 {
 	all := map[int64]bool{}
@@ -386,16 +470,23 @@ func (r *vRun) cuts(recLen int64) []int64 {
 			all[n] = true
 		}
 	}
+	// VERIF_PROBES = "all=<every byte if the record is at most this long>;sample=<seeded extra cuts>"
 	limit, sample := int64(0), 0
-	if strings.HasPrefix(r.probes, "all:") {
-		v, _ := strconv.Atoi(strings.TrimPrefix(r.probes, "all:"))
-		limit = int64(v)
+	for _, kv := range strings.Split(r.probes, ";") {
+		p := strings.SplitN(kv, "=", 2)
+		if len(p) != 2 {
+			continue
+		}
+		v, _ := strconv.Atoi(p[1])
+		switch p[0] {
+		case "all":
+			limit = int64(v)
+		case "sample":
+			sample = v
+		}
 	}
-	if i := strings.Index(r.probes, "sample:"); i >= 0 {
-		sample, _ = strconv.Atoi(strings.Split(r.probes[i+len("sample:"):], ",")[0])
-	}
-	if i := strings.Index(r.probes, ",sample:"); i >= 0 {
-		sample, _ = strconv.Atoi(r.probes[i+len(",sample:"):])
+	if r.fullDone {
+		limit = 0
 	}
 	if recLen <= limit {
 		for n := int64(0); n < recLen; n++ {
@@ -460,7 +551,9 @@ func (r *vRun) run() {
 	}
 	r.stat.Lock()
 	for _, d := range desc {
-		r.stat.Shapes[d]++
+		for k, part := range strings.Split(d, "/") {
+			r.stat.Shapes[[]string{"shape:", "times:", "types:"}[k]+part]++
+		}
 	}
 	r.stat.Unlock()
 
@@ -484,10 +577,11 @@ func (r *vRun) run() {
 		case "Store":
 			row := r.newRow("Store")
 			row.ID, row.List = op.ID, op.List
+			r.tailID = op.ID
 			if err := r.cf.setData(r.rids[op.ID], r.t0[op.ID], r.lists[op.List]); err != nil {
 				row.Err = err.Error()
+				r.tailID = -1
 			}
-			r.tailID = op.ID
 			r.observe(r.cf, r.path, row)
 		case "Invalidate":
 			row := r.newRow("Invalidate")
@@ -533,9 +627,10 @@ func (r *vRun) run() {
 			}
 			info, ok := r.cf.streamInfos[r.rids[r.tailID]]
 			if !ok {
-				row := r.newRow("HarnessError")
+				// nothing to cut: the code under test lost the entry (shows up in the rows before)
+				row := r.newRow("Skip")
 				row.Err = "last stored stream has no table entry"
-				return
+				continue
 			}
 			base, recLen := info.offset-streamHeaderSize, int64(info.size)+streamHeaderSize
 			if err := r.cf.Close(); err != nil {
@@ -545,13 +640,20 @@ func (r *vRun) run() {
 			}
 			r.cf = nil
 			content, err := os.ReadFile(r.path)
-			if err != nil || base+recLen != int64(len(content)) {
+			if err == nil && base+recLen != int64(len(content)) {
+				row := r.newRow("Skip")
+				row.Err = fmt.Sprintf("last record [%d,+%d) does not end at the file end %d", base, recLen, len(content))
+				return
+			}
+			if err != nil {
 				row := r.newRow("HarnessError")
 				row.Err = fmt.Sprintf("last record [%d,+%d) does not end at the file end %d (%v)", base, recLen, len(content), err)
 				return
 			}
 			// fault enumeration: every probed cut of the last record on a copy of the file
-			for _, n := range r.cuts(recLen) {
+			cuts := r.cuts(recLen)
+			r.fullDone = true // every byte only at the first Truncate of a trace
+			for _, n := range cuts {
 				row := r.newRow("Probe")
 				row.ID, row.Cut, row.RecLen = r.tailID, n, recLen
 				pp := r.path + ".probe"
@@ -562,14 +664,12 @@ func (r *vRun) run() {
 				pcf, err := NewCacheFile(pp)
 				if err != nil {
 					row.Err = err.Error()
+					vOpenFailed()
 				} else {
 					r.observe(pcf, pp, row)
 					pcf.Close()
 				}
 				os.Remove(pp)
-				r.stat.Lock()
-				r.stat.Probes++
-				r.stat.Unlock()
 			}
 			content = nil
 			// the step itself
@@ -600,7 +700,7 @@ func (r *vRun) run() {
 }
 
 func TestVerifCacheFile(t *testing.T) {
-	in, tracePath, outPath := os.Getenv("VERIF_IN"), os.Getenv("VERIF_TRACE"), os.Getenv("VERIF_OUT")
+	in, traceDir, outPath := os.Getenv("VERIF_IN"), os.Getenv("VERIF_TRACE_DIR"), os.Getenv("VERIF_OUT")
 	if in == "" {
 		t.Skip("VERIF_IN not set")
 	}
@@ -609,17 +709,21 @@ func TestVerifCacheFile(t *testing.T) {
 	if dir == "" {
 		dir = t.TempDir()
 	}
-	probes := os.Getenv("VERIF_PROBES")
-	if probes == "" {
-		probes = "sample:4"
-	}
-	hugeProbes := os.Getenv("VERIF_PROBES_HUGE")
-	if hugeProbes == "" {
-		hugeProbes = "sample:2"
+	// probes per behaviour kind, e.g. "exh:all=0;sample=3|sim:all=4096;sample=8|huge:all=0;sample=2"
+	probes := map[string]string{}
+	for _, kv := range strings.Split(os.Getenv("VERIF_PROBES"), "|") {
+		p := strings.SplitN(kv, ":", 2)
+		if len(p) == 2 {
+			probes[p[0]] = p[1]
+		}
 	}
 	workers, _ := strconv.Atoi(os.Getenv("VERIF_PAR"))
 	if workers <= 0 {
 		workers = 8
+	}
+	nchunks, _ := strconv.Atoi(os.Getenv("VERIF_CHUNKS"))
+	if nchunks <= 0 {
+		nchunks = 1
 	}
 
 	fh, err := os.Open(in)
@@ -641,56 +745,63 @@ func TestVerifCacheFile(t *testing.T) {
 		bs = append(bs, b)
 	}
 
-	out, err := os.Create(tracePath)
-	if err != nil {
-		t.Fatal(err)
+	// the rows of one trace stay together; traces are spread over nchunks files (one TLC run each)
+	type chunk struct {
+		sync.Mutex
+		f *os.File
+		w *bufio.Writer
 	}
-	w := bufio.NewWriterSize(out, 1<<20)
-	var wmu sync.Mutex
-	stat := &vStats{Ops: map[string]int{}, Shapes: map[string]int{}}
+	chunks := make([]*chunk, nchunks)
+	for k := range chunks {
+		d := filepath.Join(traceDir, fmt.Sprintf("chunk%d", k))
+		if err := os.MkdirAll(d, 0755); err != nil {
+			t.Fatal(err)
+		}
+		f, err := os.Create(filepath.Join(d, "cachefile_trace.ndjson"))
+		if err != nil {
+			t.Fatal(err)
+		}
+		chunks[k] = &chunk{f: f, w: bufio.NewWriterSize(f, 1<<20)}
+	}
+	stat := &vStats{Ops: map[string]int{}, Shapes: map[string]int{}, RecLens: map[int64]bool{}, Trans: map[string]bool{},
+		ChunkRows: make([]int, nchunks)}
 
 	jobs := make(chan vBehaviour)
 	var wg sync.WaitGroup
-	// behaviours with a 9 MiB list run one at a time (memory, disk), the others in parallel
-	var hugeMu sync.Mutex
+	// at most four behaviours with a 9 MiB list at a time (memory, tmpfs), the others in parallel
+	hugeSem := make(chan struct{}, 4)
 	for k := 0; k < workers; k++ {
 		wg.Add(1)
 		go func() {
 			defer wg.Done()
 			for b := range jobs {
-				r := &vRun{b: b, rng: rand.New(rand.NewSource(seed*1000003 + int64(b.Tr)*7919 + 17)), dir: dir, probes: probes, stat: stat}
+				r := &vRun{b: b, rng: rand.New(rand.NewSource(seed*1000003 + int64(b.Tr)*7919 + 17)), dir: dir, stat: stat}
+				r.probes = probes[b.Kind]
+				if r.probes == "" {
+					r.probes = "all=0;sample=3"
+				}
 				if b.Kind == "huge" {
-					r.probes = hugeProbes
-					hugeMu.Lock()
+					hugeSem <- struct{}{}
 				}
 				r.run()
 				if r.cf != nil {
 					r.cf.Close()
 				}
 				if b.Kind == "huge" {
-					hugeMu.Unlock()
+					<-hugeSem
 				}
-				wmu.Lock()
-				enc := json.NewEncoder(w)
+				c := chunks[b.Tr%nchunks]
+				c.Lock()
+				enc := json.NewEncoder(c.w)
 				for i := range r.rows {
 					if err := enc.Encode(&r.rows[i]); err != nil {
 						t.Errorf("encode: %v", err)
 					}
 				}
-				wmu.Unlock()
+				c.Unlock()
+				stat.account(r.rows)
 				stat.Lock()
-				stat.Traces++
-				stat.Rows += len(r.rows)
-				for _, row := range r.rows {
-					stat.Ops[row.Ev]++
-					if row.Err != "" {
-						if row.Ev == "Reopen" || row.Ev == "Truncate" || row.Ev == "Probe" || row.Ev == "Open" {
-							stat.OpenFailures++
-						} else {
-							stat.OpErrors++
-						}
-					}
-				}
+				stat.ChunkRows[b.Tr%nchunks] += len(r.rows)
 				stat.Unlock()
 			}
 		}()
@@ -700,14 +811,19 @@ func TestVerifCacheFile(t *testing.T) {
 	}
 	close(jobs)
 	wg.Wait()
-	if err := w.Flush(); err != nil {
-		t.Fatal(err)
+	for _, c := range chunks {
+		if err := c.w.Flush(); err != nil {
+			t.Fatal(err)
+		}
+		c.f.Close()
 	}
-	out.Close()
 
 	summ := map[string]interface{}{
-		"traces": stat.Traces, "rows": stat.Rows, "probes": stat.Probes, "open_failures": stat.OpenFailures,
-		"op_errors": stat.OpErrors, "skipped_ops": stat.Skipped, "ops": stat.Ops, "shapes": stat.Shapes,
+		"traces": stat.Traces, "rows": stat.Rows, "probes": stat.Probes, "probes_partial": stat.ProbesPartial,
+		"truncation_steps": stat.Truncs, "open_failures": stat.OpenFailures, "op_errors": stat.OpErrors,
+		"skipped_ops": stat.Skipped, "ops": stat.Ops, "shapes": stat.Shapes, "chunk_rows": stat.ChunkRows,
+		"compactions_at_store": stat.CompactStore, "compactions_at_load": stat.CompactLoad, "big_rows": stat.BigRows,
+		"record_lengths_truncated": len(stat.RecLens), "distinct_transitions": len(stat.Trans),
 	}
 	js, _ := json.MarshalIndent(summ, "", " ")
 	if err := os.WriteFile(outPath, js, 0644); err != nil {
